@@ -68,7 +68,7 @@ class CallMixin:
         return super().lookup_name(name, st)
 
     SPEC_BUILTINS = ("implies", "iff", "ite", "dom", "is_none", "some", "has_class", "lang_re", "in_re", "select", "to_real", "str_at",
-                     "floor", "py_str_float", "joined", "is_perm", "abs_real", "same_except", "list_eq", "is_append", "is_empty_list", "unboxed", "ext_const", "bn", "select_eq", "card_int", "is_int", "card_val", "seq_eq", "dict_eq_on", "fresh_obj", "alloc", "is_alloc", "heap_eq", "str_len", "str_from_int", "py_split")
+                     "floor", "py_str_float", "joined", "is_perm", "abs_real", "same_except", "list_eq", "is_append", "is_empty_list", "unboxed", "ext_const", "bn", "select_eq", "card_int", "is_int", "card_val", "seq_eq", "dict_eq_on", "fresh_obj", "alloc", "is_alloc", "heap_eq", "str_len", "str_from_int", "py_split", "at")
 
     def builtin(self, st, name, args, kwargs, node):
         a = args
@@ -202,6 +202,12 @@ class CallMixin:
             if name == "append":
                 x = self.coerce(args[0], ty.t, st, node)
                 nv = SV(ty, T.list_mk(ty, n + 1, z3.Store(arr, n, x.t)))
+                if isinstance(ty.t, T.Obj) and not self.quiet:
+                    # bridging instance of the array axiom, triggered on reads of the OLD list: lets E-matching carry quantified
+                    # facts about the list before the append over to the list after it (a tautology: sound)
+                    ib = z3.Int("i!apb")
+                    st.assume(z3.ForAll([ib], z3.Implies(z3.And(ib >= 0, ib < n), z3.Select(z3.Store(arr, n, x.t), ib) == z3.Select(arr, ib)),
+                                        patterns=[z3.Select(arr, ib)]))
                 if ty.t == T.Str:      # instance of the recursive definition of "".join: join(l + [x]) == join(l) + x
                     st.assume(self.joined(nv.t) == z3.Concat(self.joined(recv.t), x.t))
                 for st2 in writeback(nv): yield st2, SV(T.NoneT, z3.BoolVal(True))
